@@ -234,14 +234,19 @@ class AttributeAssignment:
         :param parent_match: The parent match of the attribute assignment.
         """
         possibly_flattened_attr = self.attr
-        if self.attr._is_iterable_ and (
-            self.assigned_value.kwargs or self.is_type_filter_needed
-        ):
+        if self.attr._is_iterable_:
+            # a match on a collection attribute always speaks about an element of the collection
             possibly_flattened_attr = flatten(self.attr)
 
         self.assigned_value._resolve(possibly_flattened_attr, parent_match)
 
-        if self.is_type_filter_needed:
+        # if nothing else constrains the element of a collection, its type does, so that the element has to exist
+        element_is_unconstrained = (
+            self.attr._is_iterable_
+            and not self.assigned_value.conditions
+            and self.assigned_value.type_
+        )
+        if self.is_type_filter_needed or element_is_unconstrained:
             self.conditions.append(
                 HasType(possibly_flattened_attr, self.assigned_value.type_)
             )
